@@ -234,7 +234,12 @@ func (g *sgen) schema(depth int) map[string]interface{} {
 		}
 		if len(req) >= 2 && g.p(12) {
 			// a name listed twice, with another name after the repetition (the decoder accepts it; the verdict is that of the set)
-			req = append(append(append([]interface{}{}, req[:2]...), req[0]), req[1:]...)
+			// [a, b, a, c, …]: a name that has not been seen yet must follow the repetition
+			tail := append([]interface{}{}, req[2:]...)
+			if len(tail) == 0 {
+				tail = []interface{}{"zz"}
+			}
+			req = append(append(append([]interface{}{}, req[:2]...), req[0]), tail...)
 		}
 		s["required"] = req
 	}
